@@ -24,8 +24,10 @@ def maybe_frame(ex, name, dtype="float64"):
     return VMaybe(z3.Bool(ex.st.fresh_name(name + "_present")), sym_frame(ex, name, dtype))
 
 
-def df_obj(ex, nrows):
-    return VOpaque("df", ex.st.fresh_int("df"), {"nrows": nrows, "type": "pandas.DataFrame"})
+def df_obj(ex, nrows, content=None):
+    """A DataFrame: number of rows + a CONTENT token (copies, deep copies and column re-selections carry the token of their source)."""
+    t = ex.st.fresh_int("df")
+    return VOpaque("df", t, {"nrows": nrows, "type": "pandas.DataFrame", "content": t if content is None else content})
 
 
 def install_df(cfg: Cfg):
@@ -36,9 +38,9 @@ def install_df(cfg: Cfg):
             return VLib("df.copy", obj)
         raise Unsupported(f"DataFrame.{name}")
     cfg.lib_overrides[("opaque_attr", "df")] = attr
-    cfg.lib_overrides["df.copy"] = lambda ex, f, args, kwargs, fr: df_obj(ex, f.self_val.info["nrows"])
+    cfg.lib_overrides["df.copy"] = lambda ex, f, args, kwargs, fr: df_obj(ex, f.self_val.info["nrows"], f.self_val.info.get("content"))
     cfg.lib_overrides[("len", "df")] = lambda ex, v, fr: VInt(v.info["nrows"])
-    cfg.lib_overrides[("deepcopy", "df")] = lambda ex, v, dc, fr: df_obj(ex, v.info["nrows"])
+    cfg.lib_overrides[("deepcopy", "df")] = lambda ex, v, dc, fr: df_obj(ex, v.info["nrows"], v.info.get("content"))
 
 
 def mk_detector(ex, u, prior="arbitrary", cls_qual="pyxel/detectors/ccd/ccd.py::CCD"):
